@@ -272,6 +272,17 @@ def finishInner (p : Params K) (l : Nat) (keys3 : List K) (kids3 : List (BNode K
     some { node := .inner l keys3 kids3, setSep := setSep, lastUp := lastUp,
            leafFree := leafFree, innerFree := innerFree }
 
+/-- how a changed last key is handed on: written into the parent's separator of this node when there
+is one (`parent && parentslot < parent->slotuse`) … -/
+def reportSep (sepAbove : Bool) : Option K → Option K
+  | none => none
+  | some k => if sepAbove then some k else none
+
+/-- … otherwise returned as `btree_update_lastkey` -/
+def reportUp (sepAbove : Bool) : Option K → Option K
+  | none => none
+  | some k => if sepAbove then none else some k
+
 /-- `parent->slotkey[parentslot] = k` as performed by the child frame (when it had a separator) -/
 def setSepKey (keys : List K) (slot : Nat) : Option K → List K
   | some k => keys.set slot k
@@ -289,14 +300,10 @@ def afterChild (p : Params K) (l : Nat) (keys : List K) (kids : List (BNode K V)
   match applyFix r.fix keys1 kids1 slot with
   | none => none
   | some fx =>
-    -- result.has(btree_update_lastkey)
-    let lk := match fx.lastUp with | some k => some k | none => r.lastUp
-    let setSep : Option K := match lk with
-      | none => none
-      | some k => if ctx.sepAbove then some k else none
-    let lastUp : Option K := match lk with
-      | none => none
-      | some k => if ctx.sepAbove then none else some k
+    -- result.has(btree_update_lastkey); shift_left_leaf's own lastkey wins over the child's
+    let lk := fx.lastUp.or r.lastUp
+    let setSep : Option K := reportSep ctx.sepAbove lk
+    let lastUp : Option K := reportUp ctx.sepAbove lk
     -- result.has(btree_fixmerge)
     match fixMerge l fx slot with
     | none => none
